@@ -91,6 +91,24 @@ def run(tier, seed, replay=None):
             facts = {k: v for k, v in rows[i].items() if k not in ("tris", "pos", "repaired")}
             chk.violation("impl:%s:%s" % (inv, json.dumps({k: v for k, v in cs[i].items() if k != "k"})), "cell geometry on case %s violates %s; reported (lattice units) %s" % (json.dumps(cs[i]), inv, json.dumps(facts)),
                           {"case": cs[i], "invariant": inv})
+    # a mesh of 65538 nodes / 131072 triangles, mixed windings, natural and reversed numbering (index arithmetic on node ids can wrap)
+    if not replay:
+        bp = os.path.join(work, "big.ndjson")
+        rc, out = vlib.run([os.path.join(bdir, "geom_driver"), "big", bp], timeout=900)
+        brows = vlib.read_ndjson(bp) if os.path.exists(bp) else []
+        if rc != 0 or len(brows) != 2:
+            chk.violation("crash:big", "geom_driver big terminated with status %d after %d records (initialisation of a 65538-node mesh)\n%s" % (rc, len(brows), out[-300:]))
+        else:
+            nb, bbad = vlib.tlc_validate_records(SPEC, "BigGeomTrace", "BigGeomTrace.cfg", brows, chunk=5, par=1, workers=1)
+            chk.cov["states"] += nb
+            chk.cov["transitions"] += nb
+            n += nb
+            for inv, idxs in sorted(bbad.items()):
+                for i in idxs:
+                    if inv == "P_BigIsBig":
+                        raise ModelError("the big mesh is not big: %r" % brows[i])
+                    chk.violation("impl:%s:%s" % (inv, brows[i]["op"]), "initialisation of a closed mesh of %d nodes / %d triangles (%s) violates %s: %s" % (
+                        brows[i]["nn"], brows[i]["nf"], brows[i]["op"], inv, json.dumps(brows[i])), {"big_record": brows[i]})
     chk.cov["traces_validated_against_impl"] = n
     chk.cov["evaluations"] = n
     chk.cov["distinct_nontrivial"] = len({json.dumps({k: v for k, v in c.items() if k != "k"}) for c in cs})
